@@ -281,9 +281,34 @@ def build(cfg):
 def apply(s, a):
     """One public mutator call.  a = {'op': ..., 'p': param, 'v': value}.  Exceptions propagate."""
     op, p, v = a["op"], a.get("p"), a.get("v")
+    via = a.get("via", "assign")
     m = mocks()
     P, B, L = s.plasma, s.beam, s.laser
-    if op == "set":
+    if op == "set" and via != "assign" and not (p == "P_comp" and via == "set"):
+        # the other public front-ends reaching the same value
+        if p == "P_comp":
+            mgr, items = P.composition, species_list(v)
+        elif p == "P_models":
+            mgr, items = P.models, plasma_models(v)
+        elif p == "B_models":
+            mgr, items = B.models, beam_models(v, s.cfg["M_cxline"])
+        elif p == "L_models":
+            mgr, items = L.models, laser_models(v)
+        else:
+            raise KeyError((p, via))
+        if via == "set":
+            mgr.set(items)
+        elif via == "clear_add":
+            mgr.clear()
+            for x in items:
+                mgr.add(x)
+        elif via == "add":        # composition: add replaces the species of the same element and charge
+            for x in items:
+                mgr.add(x)
+        else:
+            raise KeyError(via)
+        s.cfg[p] = v
+    elif op == "set":
         if p == "P_bfield": P.b_field = bfield(v)
         elif p == "P_edist": P.electron_distribution = edist(v)
         elif p == "P_comp": P.composition.set(species_list(v))
